@@ -289,6 +289,32 @@ pub fn check_program(p: &Program, st: &mut Stats, order: u64, part: &str) -> Opt
             bad("write_vectored", None, "with the contents handed over through write_vectored the archive differs (in more than the compressed form)".into(), st);
         }
     }
+    // contents handed over through write_vectored into a sink that answers ONE write call with ErrorKind::Interrupted (nothing
+    // taken; the caller calls again, as std's write_all_vectored does) - at every write-call index: no byte may be written twice
+    if matches!(part, "method-level" | "size-neutral-contents" | "comments") && bytes_f.len() < 3_000 {
+        use crate::sio::inst::{plan, Dev, Kind};
+        let p0 = plan();
+        let (rb, bb) = with_vectored_writes(|| exec_plan(&calls_f, &[], p0.clone()));
+        let kinds = p0.borrow().kinds.clone();
+        if rb.iter().all(|r| r.is_ok()) {
+            for (k, kind) in kinds.iter().enumerate() {
+                if *kind != Kind::Write {
+                    continue;
+                }
+                let pk = plan();
+                pk.borrow_mut().record_kinds = false;
+                pk.borrow_mut().devs.insert(k as u64, Dev::Interrupted);
+                let (rk, bk) = with_vectored_writes(|| exec_plan(&calls_f, &[], pk));
+                st.evals += 1;
+                // an Interrupted that a compressor back end hands on as an error is "an error reported": not judged
+                if rk.iter().all(|r| r.is_ok()) && !same_archive_modulo_compression(&bk, &bb) {
+                    ok = false;
+                    bad("write_vectored+interrupted", None, format!("contents handed over through write_vectored, sink write call {k} answered Interrupted once and was retried: every call succeeded but the archive differs from the uninterrupted one"), st);
+                    break;
+                }
+            }
+        }
+    }
     // the same bytes through sources that hand out data in pieces (a Read + Seek source may return short reads), and
     // the lookups by name for names written exactly once (duplicates: C03 states which one wins)
     if rich && p.entries.len() < 1000 {
